@@ -2,7 +2,7 @@
 # run every claimed check at the given tier / seeds; print one line per run
 tier=${1:-thorough}; shift
 seeds=${@:-1}
-cd /verif
+cd "$(dirname "$0")/.."
 for s in $seeds; do
   for p in $(python3 -c "import json;print(' '.join(c['property'] for c in json.load(open('MANIFEST.json'))['checks']))"); do
     out=$(./check $p --tier $tier --seed $s 2>&1 | grep -v "^WARNING" | tail -3 | tr '\n' ' ')
